@@ -12,6 +12,7 @@ EXPLANATION = ("C19 (narrow): the scheme table entry is selected only when the w
                "form, idempotence and round trips are value-level and not decided.")
 EXPLANATION += ' Round 3: a numeric port is a complete conversion (R7); the IPv6 brackets of nng_url_sprintf depend on the host only (R8).'
 EXPLANATION += ' A numeric port starts with a digit: the converted value is used only behind a test of the first character (R11).'
+EXPLANATION += ' Round 6: a converted number is range-checked at the width strtol returned it in (R13).'
 
 
 def rule_r1(ctx):
